@@ -15,6 +15,7 @@ import json
 import os
 import random
 import re
+import signal
 import subprocess
 import sys
 import time
@@ -98,12 +99,43 @@ def exn_code(ex):
     return 99
 
 
+class CaseTimeout(BaseException):
+    """Raised by the watchdog when the implementation does not return on one case (a change that makes the code loop forever
+    must end in a VIOLATION line, not in a check that never ends)."""
+
+
+CASE_TIMEOUT = float(os.environ.get("VERIF_CASE_TIMEOUT", "60"))
+MAX_HANGS = 2
+_hang = {"fired": False}
+
+
+def _alarm(signum, frame):
+    _hang["fired"] = True
+    signal.setitimer(signal.ITIMER_REAL, 5)      # keep interrupting if a handler in the runner swallows the exception
+    raise CaseTimeout()
+
+
+def guarded_observe(mod, ctx, inp):
+    """mod.observe(ctx, inp) under a wall-clock limit; returns (case, hung)."""
+    _hang["fired"] = False
+    old = signal.signal(signal.SIGALRM, _alarm)
+    signal.setitimer(signal.ITIMER_REAL, CASE_TIMEOUT)
+    try:
+        case = mod.observe(ctx, inp)
+    except CaseTimeout:
+        case = None
+    finally:
+        signal.setitimer(signal.ITIMER_REAL, 0)
+        signal.signal(signal.SIGALRM, old)
+    return case, _hang["fired"]
+
+
 def observe_call(f, conv):
     """Run f(); return (0 conv(value)) or (1 exception-class-code)."""
     try:
         v = f()
     except BaseException as ex:  # DesignError derives from BaseException
-        if isinstance(ex, (KeyboardInterrupt, SystemExit, MemoryError)):
+        if isinstance(ex, (KeyboardInterrupt, SystemExit, MemoryError, CaseTimeout)):
             raise
         return [1, exn_code(ex)]
     return [0, conv(v)]
@@ -359,8 +391,15 @@ class Check:
             inputs.append((stream, inp))
         lines, kept = [], []
         streams = {}
+        hangs = []
         for stream, inp in inputs:
-            case = mod.observe(ctx, inp)
+            case, hung = guarded_observe(mod, ctx, inp)
+            if hung:
+                hangs.append((stream, inp, "", "", f"the implementation did not return within {CASE_TIMEOUT:.0f}s on this input "
+                              "(non-termination or a pathological slowdown; the unchanged tree answers every case in well under a second)"))
+                if len(hangs) >= MAX_HANGS:
+                    break
+                continue
             if case is None:
                 continue
             lines.append(sx_dump(case)); kept.append((stream, inp))
@@ -372,7 +411,8 @@ class Check:
         distinct = set()
         trivial = set(getattr(mod, "TRIVIAL_BRANCHES", [0]))
         samples = []
-        first_viol, first_corr = [], []
+        first_viol, first_corr = list(hangs), []
+        tally["viol"] += len(hangs)
         for (stream, inp), line, ans in zip(kept, lines, answers):
             a = sx_parse(ans)
             v, br = a[0], a[1] if len(a) > 1 else 0
@@ -524,7 +564,11 @@ class Check:
             translate.regenerate(getattr(self.mod, "GEN", []), SRC)
             ok, log = build_judge(self.prop)
         ctx = Ctx(self.prop, "quick", self.seed, self.rng)
-        case = self.mod.observe(ctx, data["input"])
+        case, hung = guarded_observe(self.mod, ctx, data["input"])
+        if hung:
+            print("input   :", describe(self.mod, data["input"]))
+            print(f"verdict : VIOLATION (the implementation did not return within {CASE_TIMEOUT:.0f}s)")
+            return 1
         line = sx_dump(case)
         ans = run_judge(self.prop, [line])[0]
         print("input   :", describe(self.mod, data["input"]))
